@@ -2,6 +2,7 @@
 pub mod dpdrv;
 pub mod dporacles;
 pub mod engine;
+pub mod envsim;
 pub mod fuzzdrv;
 pub mod props;
 pub mod refcodec;
